@@ -25,6 +25,7 @@
 import ChessVerif.Proofs.TunerVector
 import ChessVerif.Proofs.TunerVectorWrite
 import ChessVerif.Proofs.EvalEnvelope
+import ChessVerif.Proofs.EvalBoundShipped
 import ChessVerif.Model.Abs
 
 namespace ChessVerif.Props.C19
@@ -213,5 +214,61 @@ def knbBoard : Board :=
 example : noInt16Wrap shipped (input knbBoard) = true := by decide +kernel
 
 end partA
+
+/-! ### (a) the magnitude bound: `noInt16Wrap` holds on every valid position -/
+
+section noWrap
+open ChessVerif.Eval
+
+/-- The closed magnitude check (`Eval.Bound.boundOK`, a Boolean function of the coefficient set alone)
+    holds for the REGENERATED `eval.Coefficients`: all coefficients are int16 values, and with
+    `manHi/manLo` the extreme total contribution of one man (value + PSqT + mobility + outpost / passer /
+    pawn-structure addends) and `constHi/constLo` the addends occurring once (tempo, bishop pair,
+    passer king distance, king PSqT, sigmoid ≤ 600), the accumulator interval
+    `[15·manLo + constLo, 15·manHi + constHi]` is narrower than 32767 in both game phases (shipped:
+    18974 and 23028), the king-attack scores lie in the int16 range (shipped: within [-3555, 2550]) and
+    so does the knight+bishop-mate path (width 22030).  Kernel-evaluated: regenerating Gen/Eval.lean
+    with coefficients for which this analysis cannot exclude a wrap makes the build fail here. -/
+theorem shipped_boundOK : Bound.boundOK shipped = true := Bound.boundOK_shipped
+
+/-- For EVERY coefficient set passing the closed check and every evaluation input with at most 15 men
+    besides the king per side and a halfmove clock in `0..100`, no int16 conversion that matters
+    changes a value. -/
+theorem noWrap_of_boundOK (cs : CoeffSet Int) (hb : Bound.boundOK cs = true) (i : EvalInput)
+    (hm : ∀ c, Bound.Men15 i c) (hf : 0 ≤ i.fifty ∧ i.fifty ≤ 100) : noInt16Wrap cs i = true :=
+  Bound.noWrap_of_boundOK cs i hb hm hf
+
+/-- **noWrap_shipped.**  On every valid position — any promoted material included: the promotion bound of
+    `Board.valid` allows at most 15 men besides the king per side, e.g. nine queens — the evaluation
+    with the shipped coefficients never wraps an int16 value that is inspected. -/
+theorem noWrap_shipped (b : Board) (hv : Board.valid b = true) : noInt16Wrap shipped (input b) = true :=
+  Bound.noWrap_of_valid shipped Bound.boundOK_shipped b hv
+
+/-- hence on every valid position the engine's wrapping int16 evaluation IS the exact-integer one … -/
+theorem evalInt_exact_valid (b : Board) (hv : Board.valid b = true) :
+    evalInt shipped b = evalCore opsZ shipped (input b) :=
+  evalInt_exact shipped b (noWrap_shipped b hv)
+
+/-- … and the exact-arithmetic statement of C19 (a) holds in full (what remains outside Lean is only
+    the step from exact rationals with `TableNear σ` to float64 with `math.Exp`). -/
+theorem C19a_full_holds : C19a_full := c19a_full_of_noWrap noWrap_shipped
+
+open Color Piece in
+/-- non-vacuity at the extreme of the domain: a valid position with NINE white queens and all seven
+    original pieces (16 men) against a bare king, black to move. -/
+def nineQueens : Board :=
+  let men : List (Nat × Color × Piece) :=
+    [(0, white, king), (1, white, rook), (2, white, rook), (3, white, bishop), (4, white, bishop),
+     (5, white, knight), (6, white, knight), (7, white, queen),
+     (8, white, queen), (9, white, queen), (10, white, queen), (11, white, queen),
+     (12, white, queen), (13, white, queen), (14, white, queen), (15, white, queen), (63, black, king)]
+  let b := men.foldl (fun b x => (Board.addPiece Board.zeroKeys b x.2.1 x.2.2 x.1).1) Board.empty
+  { b with stm := .black, fullMoves := 1, fifty := 0 }
+
+example : Board.valid nineQueens = true := by decide +kernel
+example : Board.valid knbBoard = true := by decide +kernel
+example : noInt16Wrap shipped (input nineQueens) = true := noWrap_shipped _ (by decide +kernel)
+
+end noWrap
 
 end ChessVerif.Props.C19
